@@ -122,25 +122,26 @@ def xmlKeyError (X : List (Nat × PStr)) (s : PStr) : Option Nat :=
 /-- length of the longest prefix whose members satisfy `p` -/
 def spanLen (p : Nat → Bool) (l : PStr) : Nat := (l.takeWhile p).length
 
+/-- a non-empty greedy run of `p` followed by `;`: the length `pre + run + 1` of the whole match. Greedy runs followed
+    by `;` need no backtracking: a shorter run is followed by a run member, never by `;`. -/
+def runSemi (pre : Nat) (p : Nat → Bool) (l : PStr) : Option Nat :=
+  if spanLen p l = 0 then none else
+  match l.drop (spanLen p l) with
+  | 59 :: _ => some (pre + spanLen p l + 1)
+  | _ => none
+
 /-- After an `&`: does `(#\d+|#x[0-9a-fA-F]+|\w+);` match here, and how many code points (including the `;`)?
-    `ci` = the pattern is compiled with `re.I` (then `#X` is accepted as well). `\d`, `\w` are Unicode-aware.
-    Greedy runs followed by `;` need no backtracking: a shorter run is followed by a run member, never by `;`. -/
+    `ci` = the pattern is compiled with `re.I` (then `#X` is accepted as well). `\d`, `\w` are Unicode-aware. -/
 def entityLen (T : Tbl) (ci : Bool) (l : PStr) : Option Nat :=
-  let tryRun (pre : Nat) (p : Nat → Bool) (l' : PStr) : Option Nat :=
-    let n := spanLen p l'
-    if n = 0 then none else
-    match l'.drop n with
-    | 59 :: _ => some (pre + n + 1)
-    | _ => none
   match l with
   | 35 :: r =>
-    match tryRun 1 (inRanges T.digit) r with
+    match runSemi 1 (inRanges T.digit) r with
     | some n => some n
     | none =>
       match r with
-      | x :: r' => if x = 120 || (ci && x = 88) then tryRun 2 isHex r' else none
+      | x :: r' => if x = 120 || (ci && x = 88) then runSemi 2 isHex r' else none
       | [] => none
-  | _ => tryRun 0 (inRanges T.word) l
+  | _ => runSemi 0 (inRanges T.word) l
 
 /-! ## substitute_xml_containing_entities (dammit.py:381-401) -/
 
